@@ -2,7 +2,11 @@
 
 package websocket
 
-import "net/http"
+import (
+	"io"
+	"net/http"
+	"net/url"
+)
 
 // ---- RFC 7692 permessage-deflate parameter grammar, as far as this library honours it.
 //
@@ -303,4 +307,80 @@ func specOriginPatterns(opts *AcceptOptions) []string {
 		return nil
 	}
 	return opts.OriginPatterns
+}
+
+// ---- dial side (C13): ghost record of the request handed to the HTTP client
+type ghostClient struct {
+	sent *http.Request
+}
+
+//gvc:ghost
+func ghclient(c *http.Client) *ghostClient { panic("ghost") }
+
+// specJoin: strings.Join(a, sep).
+//
+//gvc:uninterpreted
+func specJoin(a []string, sep string) string { panic("ghost") }
+
+//gvc:uninterpreted
+func specURLString(u *url.URL) string { panic("ghost") }
+
+// specClonedFrom: h is a copy of the header map orig (http.Header.Clone) to which values
+// were then Set.
+//
+//gvc:uninterpreted
+func specCloneOf(orig http.Header) http.Header { panic("ghost") }
+
+// specB64Enc16: base64.StdEncoding.EncodeToString of the 16 bytes r delivers from position pos.
+//
+//gvc:uninterpreted
+func specB64Enc16(r io.Reader, pos int) string { panic("ghost") }
+
+// specUpgradeRequestSent: RFC 6455 4.1 - the opening handshake the client sends.
+func specUpgradeRequestSent(rq *http.Request, opts *DialOptions, copts *compressionOptions, key string) bool {
+	if rq == nil || rq.Method != "GET" {
+		return false
+	}
+	h := ghhdr(rq.Header)
+	if h.vals["Connection"] != "Upgrade" || h.vals["Upgrade"] != "websocket" || h.vals["Sec-WebSocket-Version"] != "13" || h.vals["Sec-WebSocket-Key"] != key {
+		return false
+	}
+	if len(opts.Subprotocols) > 0 && h.vals["Sec-WebSocket-Protocol"] != specJoin(opts.Subprotocols, ",") {
+		return false
+	}
+	if copts != nil && h.vals["Sec-WebSocket-Extensions"] != specOptsHeader(copts.clientNoContextTakeover, copts.serverNoContextTakeover) {
+		return false
+	}
+	if len(opts.Host) > 0 && rq.Host != opts.Host {
+		return false
+	}
+	return gvcSameMap(rq.Header, specCloneOf(opts.HTTPHeader))
+}
+
+// specB64Key: base64.StdEncoding.EncodeToString of 16 bytes.
+//
+//gvc:uninterpreted
+func specB64Key(b0, b1, b2, b3, b4, b5, b6, b7, b8, b9, b10, b11, b12, b13, b14, b15 byte) string {
+	panic("ghost")
+}
+
+// specKeyFrom: the Sec-WebSocket-Key made of the 16 bytes the random source delivers from pos.
+func specKeyFrom(src io.Reader, pos int) string {
+	return specB64Key(rdin(src, pos), rdin(src, pos+1), rdin(src, pos+2), rdin(src, pos+3), rdin(src, pos+4), rdin(src, pos+5), rdin(src, pos+6), rdin(src, pos+7),
+		rdin(src, pos+8), rdin(src, pos+9), rdin(src, pos+10), rdin(src, pos+11), rdin(src, pos+12), rdin(src, pos+13), rdin(src, pos+14), rdin(src, pos+15))
+}
+
+// specRandSrc: the random source dial uses (the injected one in tests, crypto/rand otherwise).
+func specRandSrc(rr io.Reader) io.Reader {
+	if rr == nil {
+		return specRand()
+	}
+	return rr
+}
+
+func specDialSubprotocols(opts *DialOptions) []string {
+	if opts == nil {
+		return nil
+	}
+	return opts.Subprotocols
 }
